@@ -112,6 +112,37 @@ class RunCtx(object):
             self.extractor_raises.add(cls)
         self.eliot.register_exception_extractor(cls, fn)
 
+    def setup_extractors(self, specs):
+        """specs: [[class_name, mode]] with mode fields | raise."""
+        from .driver import ExtractorBoom
+        for cname, mode in specs:
+            cls = EXC_CLASSES[cname]
+            if mode == "fields":
+                def fn(e, cname=cname):
+                    return {"xcls": cname, "xlen": len(exc_text(e))}
+                self.register_extractor(cls, fn)
+            else:
+                def fn(e, cname=cname):
+                    raise ExtractorBoom("extractor for %s failed" % cname)
+                self.register_extractor(cls, fn, raises=True)
+
+    def nearest_extractor(self, ex):
+        for klass in type(ex).__mro__:
+            if klass in self.extractors:
+                return klass
+            if klass is EnvironmentError:
+                return klass
+        return None
+
+    def extractor_failure(self, ex):
+        """The exception the nearest extractor raises for ``ex``, or None."""
+        from .driver import ExtractorBoom
+        k = self.nearest_extractor(ex)
+        if k is not None and k in self.extractor_raises:
+            name = [n for n, c in EXC_CLASSES.items() if c is k][0]
+            return ExtractorBoom("extractor for %s failed" % name)
+        return None
+
     def expected_extractor_fields(self, ex):
         """Fields of the extractor registered for the nearest class in the MRO
         (eliot registers one for EnvironmentError itself)."""
@@ -296,7 +327,10 @@ def run_program(rc, prog, setup=None, teardown=None):
         elif sched.abort == "step budget":
             rc.fail("no_termination", "run exceeded its step budget")
         elif sched.abort == "call budget":
-            rc.fail("no_return", "an API call did not return within its step budget")
+            info = sched.abort_info
+            label = info[1] if info else None
+            rc.fail("no_return", "API call %r did not return within its step budget of %s line events" % (
+                label, sched.call_budget), api=label[0] if isinstance(label, tuple) else str(label))
     finally:
         seams.end_run()
     return interp
